@@ -21,6 +21,11 @@ import (
 //	pace <us>           sleep after every hand-off
 //	down / up           close the endpoint (listener and connections) / listen again on the same port
 //	sleep <ms>
+//	keep <ms>           keepSafe rotation period of the connections of the next cfg (default: the code's 10 s)
+//	hold <hex>          hold HandleData at its schedule point when it has received exactly this line (until `release`)
+//	waitheld            wait until the held goroutine has reached the point
+//	release             let it continue
+//	drain <ms>          wait until the endpoint has received nothing new for <ms>
 //	end                 wait for quiescence, print what the endpoint received (per incarnation) and the counters
 type endpoint struct {
 	sync.Mutex
@@ -120,6 +125,26 @@ func init() {
 		cnt := func(name string) int64 { return stats.Counter("dest=" + key + "." + name).Count() }
 		pace := time.Duration(0)
 		sent := 0
+		keep := 10 * time.Second
+		var holdMu sync.Mutex
+		var holdLine []byte
+		var held, release chan bool
+		destination.VerifSchedPoint = func(point string, buf []byte) {
+			holdMu.Lock()
+			match := holdLine != nil && point == "handledata-received" && string(buf) == string(holdLine)
+			h, r := held, release
+			if match {
+				holdLine = nil
+			}
+			holdMu.Unlock()
+			if match {
+				close(h)
+				select {
+				case <-r:
+				case <-time.After(10 * time.Second):
+				}
+			}
+		}
 		maxHandoff := time.Duration(0)
 		counters := func() string {
 			return fmt.Sprintf("slow_conn=%d conn_down_no_spool=%d slow_spool=%d bad_pickle=%d",
@@ -173,6 +198,8 @@ func init() {
 					return
 				}
 				destSeq++
+				destination.VerifSetKeepDuration(keep)
+				keep = 10 * time.Second
 				m, _ := matcher.New("", "", "", "", "", "")
 				spoolDir, _ = ioutil.TempDir("", "crngspool")
 				var err error
@@ -197,6 +224,39 @@ func init() {
 				}
 				sent = 0
 				pace = 0
+			case "keep":
+				ms, _ := strconv.Atoi(f[1])
+				keep = time.Duration(ms) * time.Millisecond
+			case "hold":
+				holdMu.Lock()
+				holdLine = unhexArg(f[1])
+				held, release = make(chan bool), make(chan bool)
+				holdMu.Unlock()
+			case "waitheld":
+				select {
+				case <-held:
+					emit("held true")
+				case <-time.After(3 * time.Second):
+					emit("held false")
+				}
+			case "release":
+				if release != nil {
+					close(release)
+					release = nil
+				}
+			case "drain":
+				ms, _ := strconv.Atoi(f[1])
+				last, since := -1, time.Now()
+				deadline := time.Now().Add(20 * time.Second)
+				for time.Now().Before(deadline) {
+					t := ep.totalRecv()
+					if t != last {
+						last, since = t, time.Now()
+					} else if time.Since(since) > time.Duration(ms)*time.Millisecond {
+						break
+					}
+					time.Sleep(5 * time.Millisecond)
+				}
 			case "pace":
 				us, _ := strconv.Atoi(f[1])
 				pace = time.Duration(us) * time.Microsecond
